@@ -11,9 +11,9 @@ theorem C05_renderer_total (w : Nat) (d : Doc) : ∃ s : String, pretty w d = s 
 
 /-- The library pipeline after the syntax-error check returns for every tree and configuration:
 either text or an explicit rejection value (never divergence). -/
-theorem C05_format_total (e : Env) (root : Node) :
-    (∃ out, format e root = .ok out) ∨ (∃ r, format e root = .error r) := by
-  cases h : format e root with
+theorem C05_format_total (cfg : Config) (wd : String → Nat) (root : Node) :
+    (∃ out, format cfg wd root = .ok out) ∨ (∃ r, format cfg wd root = .error r) := by
+  cases h : format cfg wd root with
   | ok o => exact Or.inl ⟨o, rfl⟩
   | error r => exact Or.inr ⟨r, rfl⟩
 
